@@ -21,6 +21,7 @@ type JobSpec struct {
 	CheckComplex bool   `json:"check_complex"`
 	TimeoutS     int    `json:"timeout_s,omitempty"`
 	Unwind       int    `json:"unwind,omitempty"`
+	SecondSolver string `json:"second_solver,omitempty"`
 }
 
 func (j JobSpec) String() string {
@@ -59,32 +60,34 @@ type Witness struct {
 }
 
 type JobResult struct {
-	Spec            JobSpec               `json:"spec"`
-	Status          string                `json:"status"` // ok | violation | inconclusive | error
-	Error           string                `json:"error,omitempty"`
-	Violations      []Violation           `json:"violations,omitempty"`
-	Known           []Violation           `json:"known,omitempty"`
-	Witnesses       []Witness             `json:"witnesses,omitempty"`
-	Asserts         map[string]AssertStat `json:"asserts"`
-	Reach           map[string]string     `json:"reach"`
-	Obligations     int                   `json:"obligations"`
-	Discharged      int                   `json:"discharged"`
-	Inconclusive    int                   `json:"inconclusive"`
-	InconclusiveIDs []string              `json:"inconclusive_ids,omitempty"`
-	Stats           Stats                 `json:"stats"`
-	Terms           int                   `json:"terms"`
-	SolverQ         int                   `json:"solver_queries"`
-	SolverMs        float64               `json:"solver_ms"`
-	SolverMaxMs     float64               `json:"solver_max_ms"`
-	SolverErrors    []string              `json:"solver_errors,omitempty"`
-	ExecS           float64               `json:"exec_s"`
-	WallS           float64               `json:"wall_s"`
-	Funcs           map[string]int        `json:"functions,omitempty"`
-	GlobalStores    []string              `json:"global_stores,omitempty"`
-	GlobalLoads     []string              `json:"global_loads,omitempty"`
-	NVars           int                   `json:"nvars"`
-	StaticReach     []string              `json:"static_reach,omitempty"`
-	FeasKinds       map[string]int        `json:"feas_kinds,omitempty"`
+	Spec                JobSpec               `json:"spec"`
+	Status              string                `json:"status"` // ok | violation | inconclusive | error
+	Error               string                `json:"error,omitempty"`
+	Violations          []Violation           `json:"violations,omitempty"`
+	Known               []Violation           `json:"known,omitempty"`
+	Witnesses           []Witness             `json:"witnesses,omitempty"`
+	Asserts             map[string]AssertStat `json:"asserts"`
+	Reach               map[string]string     `json:"reach"`
+	Obligations         int                   `json:"obligations"`
+	Discharged          int                   `json:"discharged"`
+	Inconclusive        int                   `json:"inconclusive"`
+	InconclusiveIDs     []string              `json:"inconclusive_ids,omitempty"`
+	Stats               Stats                 `json:"stats"`
+	Terms               int                   `json:"terms"`
+	SolverQ             int                   `json:"solver_queries"`
+	SolverMs            float64               `json:"solver_ms"`
+	SolverMaxMs         float64               `json:"solver_max_ms"`
+	SolverErrors        []string              `json:"solver_errors,omitempty"`
+	ExecS               float64               `json:"exec_s"`
+	WallS               float64               `json:"wall_s"`
+	Funcs               map[string]int        `json:"functions,omitempty"`
+	GlobalStores        []string              `json:"global_stores,omitempty"`
+	GlobalLoads         []string              `json:"global_loads,omitempty"`
+	NVars               int                   `json:"nvars"`
+	StaticReach         []string              `json:"static_reach,omitempty"`
+	SecondSolverQ       int                   `json:"second_solver_queries,omitempty"`
+	SolverDisagreements int                   `json:"solver_disagreements,omitempty"`
+	FeasKinds           map[string]int        `json:"feas_kinds,omitempty"`
 }
 
 func (e *Engine) vectorOf(model []uint64) Vector {
@@ -286,6 +289,17 @@ func RunJob(p *Program, spec JobSpec, kfAccept map[string]bool) (res *JobResult)
 				q = e.ts.Or(q, t)
 			}
 			r, model := e.sol.CheckOneShot(q, true, e.cfg.FinalTimeoutMs)
+			if spec.SecondSolver != "" && r != Unknown {
+				// thorough tier: the same query on a second solver must agree
+				bin, args := solverCmd(spec.SecondSolver)
+				s2 := &Solver{ts: e.ts, bin: bin, args: args}
+				r2, _ := s2.CheckOneShot(q, false, 60000)
+				res.SecondSolverQ++
+				if r2 != Unknown && r2 != r {
+					res.SolverDisagreements++
+					e.sol.Errors = append(e.sol.Errors, fmt.Sprintf("solver disagreement: %s says %s, %s says %s", e.sol.bin, r, bin, r2))
+				}
+			}
 			if r == Sat {
 				return Sat, model
 			}
